@@ -541,6 +541,8 @@ def subscript(I, fr, base, idx, node):
     if base.kind == K_DICT:
         if idx.has_const() and base.dvals is not None and idx.const in base.dvals:
             return base.dvals[idx.const]
+        if base.elem is not None and not base.dvals:
+            return base.elem
         return top_av(True, "dict item", I.atoms)
     if base.kind == K_STR:
         return AV(kind=K_STR)
@@ -1055,6 +1057,8 @@ def call_method(I, fr, name, base, args, kwargs, node):
             return top_av(True, "dict.get", I.atoms)
         if name in ("items", "keys", "values"):
             vals = list((base.dvals or {}).values())
+            if base.elem is not None:
+                vals.append(base.elem)
             e = join_all(vals)
             if name == "items":
                 e = AV(kind=K_TUPLE, items=(AV(kind=K_STR), e if e is not None else top_av(True, "dict value", I.atoms)))
@@ -1108,6 +1112,10 @@ def call_method(I, fr, name, base, args, kwargs, node):
             return const_av(None)
         if name == "item":
             return base.replace(kind=K_SCALAR, shape=(), origin=frozenset(["lit"]))
+    if base.kind in (K_ARRAY, K_TOP) and name in LIST_MUTATORS and base.note != "file":
+        # list-only mutator on an array-like value: mutates a list argument (and raises on an ndarray)
+        I.mutate(fr, base, node, "list." + name + " on array-like", lambda a: a.replace(shape=None, mono=frozenset()))
+        return const_av(None)
     if base.kind == K_TOP and base.note == "file" or name in ("close", "write", "read", "readlines", "readline"):
         if name in ("read", "readline"):
             return AV(kind=K_STR, tags=frozenset(["file-text"]))
